@@ -19,7 +19,8 @@ func init() {
 			"(b) state=Ready lies behind isReady() being true, isReady returns true only after every depTask reported done(), and done() holds exactly for Terminated (constant-folded over the enum); " +
 			"(c) on task completion every path to markReady passes updateTaskResults and the recomputation, and the failure edge returns without releasing dependants; the task goroutine starts only after updateTaskValue and state=Running; " +
 			"(d) the task goroutine and the runner-facing Task methods write only Task.err / Task.update, and the goroutine's last action on every path is the send on taskCh; Task.state is assigned only by the controller goroutine's functions; " +
-			"(e) checkCycle is evaluated on every non-failing initTasks path, its error reaches c.errs, and runLoop's loop tests c.errs.",
+			"(e) checkCycle is evaluated on every non-failing initTasks path, its error reaches c.errs, and runLoop's loop tests c.errs; " +
+			"(f) the `running` flag that decides whether runLoop blocks on taskCh is set exactly for tasks already Running or started in the same iteration; Task.Fill extends a pending result instead of overwriting it and updateTaskResults clears it only after taking it.",
 		trust: []string{"dependency discovery (dep.Visit) is not analysed", "Runner implementations are external"},
 	})
 }
